@@ -1,3 +1,4 @@
+import NgVerif.Proofs.Source
 import NgVerif.Proofs.Readable
 import NgVerif.Proofs.Tiling
 import NgVerif.Model.Stats
@@ -85,5 +86,11 @@ theorem axis_partition (size cs : Nat) (hc : 0 < cs) (x : Nat) (hx : x < size) :
     ∃ r ∈ Tiling.ranges size cs, (r.1 ≤ x ∧ x < r.2) ∧
       ∀ r' ∈ Tiling.ranges size cs, (r'.1 ≤ x ∧ x < r'.2) → r' = r :=
   Tiling.exists_unique_range size cs hc x hx
+
+/-- TRANSLATED SOURCE. `utils.ceil_div` as it stands in /repo's source (translated on every run) is the model's
+    `ceilDiv` for every dividend ≥ 1 (the chunk counts of scale-stats, of the scale generator and of the pyramid) -/
+theorem source_ceil_div_is_the_model (a b : Nat) (ha : 1 ≤ a) :
+    Generated.Src.ceilDiv (a := a) (b := b) = ((ceilDiv a b : Nat) : Int) :=
+  Source.ceilDiv_eq_model a b ha
 
 end NgVerif.Props.C20
